@@ -246,7 +246,7 @@ Definition stmt_ok (s : stmt) : Prop :=
   | SLoadOffs d a off | SStoreOffs d a off => d < 8 /\ a < 8 /\ off6_ok off = true
   | SNot d a => d < 8 /\ a < 8
   | STrap v => v < 256
-  | SRawWord v => True
+  | SRawWord v => v < 65536
   | _ => True
   end.
 
